@@ -2,6 +2,7 @@
   C02 — Field resolution across layers: define, inherit, drop; never a stale field.
   Property theorems about CM.Model.Stack (the model is tied to /repo by the S-BAG correspondence).
 -/
+import CM.Proofs.FactoryChain
 import CM.Proofs.StackLemmas
 import CM.Proofs.BagWfB
 import CM.Proofs.BagTerm
@@ -216,5 +217,53 @@ example : (match connectBags exSource exTransform with
          | none => false)
     | .error _ => false) = true := by
   decide +kernel
+
+/-! ## Node level, from the class body: `interface/factory.py`, `containers/reversible.py` (`CM.Model.Factory`) -/
+
+
+/-- **Node level, from the class body: what a field of a layer computes.**  In the container the factory builds for a layer
+(`CM.Model.Factory`: `GraphFactory`, `SourceFactory`, `TransformFactory`, `ReversibleContainer`), the field `f` computes its
+function applied to what its arguments denote: public names are the inputs of those names (for a Source: the key), constructor
+arguments (with their defaults) are constants bound per instance, private parameters are their own functions of their own
+arguments. -/
+theorem node_factory_field {r : RawLayer} {b : Bag} (h : r.factory = .ok b) (f : RawField) (hf : f ∈ r.fields)
+    (ts : List BTerm) (hlen : f.args.length = ts.length) (hargs : ∀ q ∈ f.args.zip ts, ArgDen r q.1 q.2) :
+    b.Field f.name (.node (.function f.f [] []) ts) :=
+  factory_field h f hf ts hlen hargs
+
+/-- **The container of every layer the factory accepts is well-formed**, for every class body: the hypotheses of
+`node_connect_step`, `node_chain_wf` and `node_pipeline_value` need not be assumed for layers built through the public API. -/
+theorem node_factory_wf {r : RawLayer} {b : Bag} (h : r.factory = .ok b) : b.WF := factory_wf h
+
+/-- **A layer on top of a pipeline** (`pipeline >> layer`): the new field computes the layer's function over the layer's private
+parameters and constructor arguments and over what the pipeline computes under the names of its public arguments; the result is
+well-formed again, so the statement applies to the next layer as well (stacks of any height, by `node_chain_wf`). -/
+theorem node_layer_over_pipeline {l b c : Bag} {r : RawLayer} (hl : l.WF) (hb : r.factory = .ok b) (hc : connectBags l b = .ok c)
+    (f : RawField) (hf : f ∈ r.fields) (ts : List BTerm) (hlen : f.args.length = ts.length)
+    (hargs : ∀ q ∈ f.args.zip ts, ArgDen r q.1 q.2) :
+    c.WF ∧ ∀ t, c.Field f.name t ↔ Glue l (.node (.function f.f [] []) ts) t :=
+  layer_over_pipeline hl hb hc f hf ts hlen hargs
+
+/-- non-vacuity (a test): `class T(Transform): __inherit__ = 'b'; _k = 2; def _p(a): ...; def x(a, _p, _k): ...` is accepted
+by the factory model, and the arguments of `x` denote: the input `a`, `T._p(a)`, the constant 2 -/
+def exLayer : RawLayer :=
+  { k := "transform", cls := "T",
+    fields := [{ name := "x", f := "T.x", args := ["a", "_p", "_k"] }],
+    params := [{ name := "_p", f := "T._p", args := ["a"] }],
+    consts := [("_k", .int 2)], inherit := .names ["b"] }
+
+example : (match exLayer.factory with | .ok b => b.wfB && b.outputs.length == 1 | .error _ => false) = true := by
+  decide +kernel
+
+example : ArgDen exLayer "a" (.inp "a") ∧ ArgDen exLayer "_k" (.node (.constant (.int 2)) []) ∧
+    ArgDen exLayer "_p" (.node (.function "T._p" [] []) [.inp "a"]) := by
+  have hfa : exLayer.fwdArg "a" = "a" := by decide +kernel
+  have ha : ArgDen exLayer "a" (.inp "a") := hfa ▸ ArgDen.pub (by decide +kernel)
+  refine ⟨ha, .const (by decide +kernel) (by simp [exLayer]), ?_⟩
+  refine .param { name := "_p", f := "T._p", args := ["a"] } (by decide +kernel) (by simp [exLayer]) rfl rfl ?_
+  intro q hq
+  simp only [List.zip_cons_cons, List.zip_nil_right, List.mem_singleton] at hq
+  subst hq
+  exact ha
 
 end CM.C02
